@@ -89,8 +89,8 @@ pub fn check_spider_acceptance<B: StrictOps>(s: &[usize], sm: usize, t: &[usize]
             Ok(Some(r)) => {
                 if !expect {
                     loc.violation("spider-accepted-leg-outside-node-list", json!({"s": s, "sm": sm, "t": t, "tm": tm, "w": w, "via_trait": via_trait}));
-                } else if r != P::spider(s, t, w) {
-                    loc.violation("spider-wrong-data", json!({"s": s, "t": t, "w": w, "got": r}));
+                } else if !iso(&r, &P::spider(s, t, w)) || !r.edges.is_empty() {
+                    loc.violation("spider-is-not-the-given-cospan", json!({"s": s, "t": t, "w": w, "got": r}));
                 }
             }
         }
@@ -111,9 +111,9 @@ pub fn check_spider_acceptance<B: StrictOps>(s: &[usize], sm: usize, t: &[usize]
             if !expect {
                 loc.violation("lax-spider-accepted-leg-outside-node-list", json!({"s": s, "sm": sm, "t": t, "tm": tm, "w": w}));
             } else {
-                match decode_lax(&r) {
-                    Ok(d) if d == L::strict(P::spider(s, t, w)) => {}
-                    other => loc.violation("lax-spider-wrong-data", json!({"s": s, "t": t, "w": w, "got": format!("{:?}", other)})),
+                match decode_lax(&r).ok().and_then(|d| d.strictify()) {
+                    Some(d) if iso(&d, &P::spider(s, t, w)) && d.edges.is_empty() => {}
+                    other => loc.violation("lax-spider-is-not-the-given-cospan", json!({"s": s, "t": t, "w": w, "got": format!("{:?}", other)})),
                 }
             }
         }
@@ -126,7 +126,12 @@ pub fn check_spider_acceptance<B: StrictOps>(s: &[usize], sm: usize, t: &[usize]
             Ok(r) => {
                 // half_spider(s, w) uses t = identity on s.target; defined iff s.target == |w|
                 let exp = if sm == w.len() { Some(P::spider(s, t, w)) } else { None };
-                if r != exp {
+                let ok = match (&r, &exp) {
+                    (None, None) => true,
+                    (Some(a), Some(b)) => iso(a, b),
+                    _ => false,
+                };
+                if !ok {
                     loc.violation("half-spider-is-not-spider-with-identity-leg", json!({"s": s, "sm": sm, "w": w, "got": r, "expected": exp}));
                 }
             }
@@ -192,7 +197,7 @@ pub fn check_id_twist_are_spiders<B: StrictOps>(a: &[u8], b: &[u8], loc: &mut Lo
     let idv: Vec<usize> = (0..a.len()).collect();
     match (B::identity::<u8, u8>(a), B::spider::<u8, u8>((&idv, a.len()), (&idv, a.len()), a, true)) {
         (Ok(i), Ok(Some(s))) => {
-            if i != s {
+            if !iso(&i, &s) {
                 loc.violation("identity-is-not-the-identity-spider", json!({"a": a, "identity": i, "spider": s}));
             }
         }
